@@ -335,3 +335,6 @@ def run_case(case):
           "digest": common.digest(*y0, digests), "violations": viol, "traces": states,
           "sample": {"layer": case["layer"], "slot": case["slot"], "quantizer": case["qcls"], "options": case["opts"],
                      "histories": states}}
+
+# (appended: sub-lattices added after the seeded waves; kept out of the original RULE text for readability)
+RULE = RULE + '; plus: frozen / statistics-only layers, models with a user-defined layer reloaded with custom_objects, quantizer objects that were applied to data before being handed to a layer, folded layers whose bias quantizer came from populate_bias_quantizer_from_accumulator'
